@@ -5,7 +5,7 @@
    function is a parameter of the model: [vs_share_int] is what destination.unlock computes
    (the whole remainder at the end, else bits.Mul64/bits.Div64: left * period / full rounded down,
    an error when period < 0 or period >= full); [vs_share_f64] is what it computed before commit
-   f517460 of /repo (currency.MultFloat64(left, float64(period)/float64(full)), ratio 1.0 at the
+   2bd0df4 of /repo (currency.MultFloat64(left, float64(period)/float64(full)), ratio 1.0 at the
    end, on Coq.Floats.SpecFloat through Model/F64.v), kept as the record of that defect. *)
 From Coq Require Export List ZArith Bool Lia.
 From ZC Require Export Model.F64.
